@@ -795,6 +795,16 @@ func (vc *VC) execLoop(fr *frame, st *State, ld *loopDesc) *State {
 		}
 	}
 	vc.applyHints(fr, st, fmt.Sprintf("loop%d.before", ld.ord))
+	if spec != nil && spec.Unreachable {
+		// the contract claims the loop never runs: its condition is false on entry
+		c := True
+		if ld.cond != nil {
+			c = ld.cond(st)
+		}
+		vc.oblige(st, "unreachable", tag, ld.pos, Not(c), "loop does not execute under the precondition")
+		vc.assume(st, Not(c))
+		return st
+	}
 	checkInv(st, "inv-init")
 	// 2. havoc
 	entry := st.clone()
@@ -874,7 +884,7 @@ func (vc *VC) execLoop(fr *frame, st *State, ld *loopDesc) *State {
 		// the contract claims the loop body is dead code under the precondition: prove it
 		vc.oblige(body, "unreachable", tag, ld.pos, False, "loop body is unreachable under the precondition")
 		body.pc = False
-	} else if !vc.noSafety {
+	} else if !vc.noSafety && !fr.inlined {
 		o := vc.oblige(body, "canary", tag, ld.pos, False, "loop body reachable under invariant")
 		if o != nil {
 			o.Canary = true
